@@ -32,7 +32,7 @@ theorem interrupt_passes_cond (reg : Registry) (f : Nat) (cd : CondSpec) (t e : 
 /-- … through a loop: the interrupt is not one of the break/continue signals, so the iteration aborts
     (no further iteration, no else branch) … -/
 theorem interrupt_aborts_iteration (rb : Res) (h : rb.err = some .interrupt) :
-    iterAfterBody rb = .abort { rb.st with c := { rb.st.c with err := some .interrupt } } :=
+    iterAfterBody rb = .abort { rb.st with c := { rb.st.c with err := some .interrupt, brkD := rb.st.c.brkD - 1 } } :=
   C14.error_aborts rb .interrupt h rfl
 
 /-- … and the loop node turns the `ctx.Err` of an aborted loop back into the returned error. -/
@@ -55,7 +55,9 @@ theorem exit_in_range_loop (run : St → Res) (ls : RLoopSpec) (s : St) (name : 
     (loopNode (rloopWith run none ls) s).st.w = (run (rIterStart ls k v ik { s with c := { s.c with brkD := 0 } })).st.w := by
   have hloop : rloopWith run none ls { s with c := { s.c with brkD := 0 } } =
       ok { (run (rIterStart ls k v ik { s with c := { s.c with brkD := 0 } })).st with
-           c := { (run (rIterStart ls k v ik { s with c := { s.c with brkD := 0 } })).st.c with err := some .interrupt } } := by
+           c := { (run (rIterStart ls k v ik { s with c := { s.c with brkD := 0 } })).st.c with
+                  err := some .interrupt,
+                  brkD := (run (rIterStart ls k v ik { s with c := { s.c with brkD := 0 } })).st.c.brkD - 1 } } := by
     unfold rloopWith
     simp only [hsrc]
     have : getVar ({ s with c := { s.c with brkD := 0 } } : St).c.vars name = some vv := hvar
@@ -119,14 +121,28 @@ theorem inclFinish_ok (s : St) (r : Res) (h : r.err = none) :
     inclFinish s r = ({ s with c := r.st.c } : St).write r.st.w.out := by
   unfold inclFinish; simp [h]
 
-theorem inclFinish_err (s : St) (r : Res) (e : Err) (h : r.err = some e) :
+/-- An included template that ended with an error (or with a break / continue signal meant for a loop of the
+    including template) without having written anything: the error is passed on. -/
+theorem inclFinish_err (s : St) (r : Res) (e : Err) (h : r.err = some e) (ho : r.st.w.out = []) :
     inclFinish s r = ⟨{ s with c := r.st.c }, some e⟩ := by
-  unfold inclFinish; simp [h]
+  unfold inclFinish; simp [h, ho]
+
+/-- … and when it HAD written something, that is copied out first (repair: it used to be dropped), then the error
+    is passed on — unless the copy itself fails, which is then the error. -/
+theorem inclFinish_err_copies (s : St) (r : Res) (e : Err) (h : r.err = some e) (ho : r.st.w.out ≠ [])
+    (he : e ≠ .outOfFuel) (hw : s.w.failAt = none) :
+    (inclFinish s r).err = some e ∧ (inclFinish s r).st.w.out = s.w.out ++ r.st.w.out := by
+  unfold inclFinish
+  have h1 : r.st.w.out.isEmpty = false := by cases hh : r.st.w.out <;> simp_all
+  have h2 : (e == Err.outOfFuel) = false := by cases e <;> simp_all
+  simp only [h, h1, h2, Bool.or_false, Bool.false_eq_true, if_false, Res.orErr, St.write, Writer.write, hw, ok]
+  simp
 
 /-- **include ≙ inlining.** Rendering the included tree directly into the includer's (fault-free) writer
     at the place of the tag — i.e. what textual inlining of the registered template does — and the
-    include tag give the same error, the same context afterwards and, on success, the same output;
-    on an error inside the included template the tag writes nothing. Holds for every tree, context and
+    include tag give the same error, the same context afterwards and the same output — also when the included
+    template ends with an error or with a break / continue signal (repair: what it had written used to be dropped);
+    only the model's own `outOfFuel` copies nothing. Holds for every tree, context and
     nesting depth of further includes inside. -/
 theorem include_inline (reg : Registry) (f : Nat) (names : List Bytes) (nodes : List Node) (s : St)
     (h : reg.getBKeys names = some nodes) (hd : s.c.incD < maxIncDepth)
@@ -135,8 +151,8 @@ theorem include_inline (reg : Registry) (f : Nat) (names : List Bytes) (nodes : 
     let inc := writeNode reg (f+1) (.incl names) s
     inc.err = inl.err ∧
     inc.st.c = { inl.st.c with incD := inl.st.c.incD - 1 } ∧
-    (inl.err = none → inc.st.w.out = inl.st.w.out) ∧
-    (inl.err ≠ none → inc.st.w.out = s.w.out) := by
+    (inl.err ≠ some .outOfFuel → inc.st.w.out = inl.st.w.out) ∧
+    (inl.err = some .outOfFuel → inc.st.w.out = s.w.out) := by
   intro inl inc
   have hsw : s.w = ({} : Writer).pre s.w.out s.w.writes := by
     cases hsw : s.w with
@@ -161,10 +177,36 @@ theorem include_inline (reg : Registry) (f : Nat) (names : List Bytes) (nodes : 
   simp only [Res.pre, St.pre, Ctx.pre, Writer.pre, List.nil_append]
   unfold inclFinish
   cases hre : r.err with
-  | some e => simp
+  | some e =>
+    by_cases hc : (r.st.w.out.isEmpty || e == Err.outOfFuel) = true
+    · simp only [hc, if_true]
+      refine ⟨by simp, by simp, ?_, ?_⟩
+      · intro hne
+        have : r.st.w.out.isEmpty = true := by
+          cases ho : r.st.w.out.isEmpty
+          · simp only [ho, Bool.false_or] at hc
+            have : e = Err.outOfFuel := by simpa using hc
+            exact absurd (by rw [this]) hne
+          · rfl
+        have : r.st.w.out = [] := by simpa using this
+        simp [this]
+      · intro _; simp
+    · simp only [hc, Bool.false_eq_true, if_false, Res.orErr, St.write, Writer.write, hw, ok]
+      have hne : e ≠ Err.outOfFuel := by
+        intro he; subst he; simp at hc
+      refine ⟨by simp, by simp, ?_, ?_⟩
+      · intro _; simp
+      · intro he; exact absurd (by simpa using he) hne
   | none =>
     simp only [St.write, Writer.write, hw, ok]
     simp
+
+/-- **A loop that is abandoned takes its share of a pending depth with it** (repair): `lazybreak` followed by `exit`
+    in a loop of an included template leaves nothing pending for the loops of the including template. -/
+theorem exit_consumes_level (rb : Res) (h : rb.err = some .interrupt) (hd : rb.st.c.brkD = 1) :
+    ∃ st, iterAfterBody rb = .abort st ∧ st.c.brkD = 0 ∧ st.c.err = some .interrupt := by
+  refine ⟨_, interrupt_aborts_iteration rb h, ?_, rfl⟩
+  simp [hd]
 
 /-! Non-vacuity: exit under a loop inside an included template ends the included template only. -/
 def regX : Registry := [(lit "inc", [.raw (lit "a"), .rloop ⟨[], lit "v", lit "l", []⟩ [.raw (lit "b"), .exit, .raw (lit "c")], .raw (lit "d")])]
